@@ -6,6 +6,7 @@ RULES = {
     "G2": order.rule_G2,
     "G3": order.rule_G3,
     "G5": order.rule_G5,
+    "G6": order.rule_G6,
     "D1": effects.rule_D1,
     "D2": effects.rule_D2,
     "D3": effects.rule_D3,
@@ -15,11 +16,13 @@ RULES = {
     "B3": proto.rule_B3,
     "B4": proto.rule_B4,
     "B5": proto.rule_B5,
+    "B6": proto.rule_B6,
     "E1": guard.rule_E1, "E2": cursor.rule_E2, "E3": cursor.rule_E3,
     "A1": coord.rule_A1, "A2": coord.rule_A2, "A3": coord.rule_A3, "A4": coord.rule_A4,
-    "A5": coord.rule_A5, "A6": coord.rule_A6, "A7": coord.rule_A7, "A8": coord.rule_A8, "A9": coord.rule_A9,
+    "A5": coord.rule_A5, "A6": coord.rule_A6, "A7": coord.rule_A7, "A8": coord.rule_A8, "A9": coord.rule_A9, "A10": coord.rule_A10,
     "F1": tables.rule_F1, "F2": tables.rule_F2, "F3": tables.rule_F3, "F4": tables.rule_F4, "F5": tables.rule_F5,
-    "F6": tables.rule_F6, "F7": tables.rule_F7, "F8": tables.rule_F8, "F9": tables.rule_F9, "F10": tables.rule_F10, "F11": tables.rule_F11, "F12": tables.rule_F12,
+    "F6": tables.rule_F6, "F7": tables.rule_F7, "F8": tables.rule_F8, "F9": tables.rule_F9, "F10": tables.rule_F10, "F11": tables.rule_F11, "F12": tables.rule_F12, "F13": tables.rule_F13, "F14": tables.rule_F14,
+    "F15": tables.rule_F15, "F16": tables.rule_F16,
     "C1": deadline.rule_C1,
     "C2": deadline.rule_C2,
     "C3": deadline.rule_C3,
